@@ -313,6 +313,16 @@ func (vc *VC) processBlock(b *ssa.BasicBlock) {
 			v := vc.freshSV(nm+"@loop"+fmt.Sprint(li.index), phi.Type())
 			vc.vals[phi] = v
 			vc.assumeType("true", phi.Type(), v, st)
+			// monotone counters: entry value c and every back edge adds a positive (negative) constant
+			if dir := monotonePhi(phi, b, vc.backTo[b]); dir != 0 {
+				if ev, ok := entryPhis[phi].(Sc); ok && ev.S == "Int" {
+					if dir > 0 {
+						vc.assume(reach, app("<=", ev.T, v.(Sc).T))
+					} else {
+						vc.assume(reach, app(">=", ev.T, v.(Sc).T))
+					}
+				}
+			}
 		}
 		env := vc.newEnv(st, vc.st0, b)
 		for _, inv := range invs {
@@ -707,4 +717,47 @@ func (vc *VC) autoFrameAssume(li *loopInfo, guard string, st *State) {
 		vc.assume(guard, fmt.Sprintf("(forall ((%s Int)) (! (=> (and (<= 0 %s) (< %s %s)) (= (select %s %s) (select %s %s))) :pattern ((select %s %s))))",
 			r, r, r, vc.allocTerm(vc.st0), cur, r, init, r, cur, r))
 	}
+}
+
+// monotonePhi: +1 if every back edge carries phi + (positive constant), -1 if phi - (positive constant), else 0.
+func monotonePhi(phi *ssa.Phi, h *ssa.BasicBlock, back map[*ssa.BasicBlock]bool) int {
+	dir := 0
+	for i, p := range h.Preds {
+		if !back[p] {
+			continue
+		}
+		e := phi.Edges[i]
+		if e == phi {
+			continue
+		}
+		bo, ok := e.(*ssa.BinOp)
+		if !ok || bo.X != phi {
+			return 0
+		}
+		c, ok := bo.Y.(*ssa.Const)
+		if !ok || c.Value == nil {
+			return 0
+		}
+		k, exact := constant.Int64Val(constant.ToInt(c.Value))
+		if !exact || k == 0 {
+			return 0
+		}
+		d := 0
+		switch bo.Op {
+		case token.ADD:
+			d = 1
+		case token.SUB:
+			d = -1
+		default:
+			return 0
+		}
+		if k < 0 {
+			d = -d
+		}
+		if dir != 0 && dir != d {
+			return 0
+		}
+		dir = d
+	}
+	return dir
 }
